@@ -28,6 +28,7 @@ STATE = {
 
 
 def reset_path_state():
+    TERM["docs"] = {}
     STATE["warnings_emitted"] = 0
     STATE["prints"] = 0
     STATE["uuid_counter"] = 0
@@ -70,12 +71,40 @@ def stub_uuid4():
 _REAL_UUID4 = uuid.uuid4
 
 
+# terminology.load / deferred_load: no thread, no network, no shared table.  TERM["docs"] maps a
+# URL to an in-memory Document (set by the obligations of C12); everything else is "cannot be fetched".
+TERM = {"docs": {}, "real": None}
+
+
+def stub_term_load(url):
+    for key, doc in TERM["docs"].items():
+        if key == url:
+            return doc
+    return None
+
+
+def stub_term_deferred_load(url):
+    return None
+
+
 def install_uuid_stub():
+    """All always-on environment stubs of an engine run (uuid4 counter, terminology loader)."""
     uuid.uuid4 = stub_uuid4
+    from odml import terminology
+    if not (hasattr(terminology, "load") and hasattr(terminology, "deferred_load")):
+        from .vars import HarnessError
+        raise HarnessError("odml.terminology no longer exposes load/deferred_load as module attributes")
+    if TERM["real"] is None:
+        TERM["real"] = (terminology.load, terminology.deferred_load)
+    terminology.load = stub_term_load
+    terminology.deferred_load = stub_term_deferred_load
 
 
 def remove_uuid_stub():
     uuid.uuid4 = _REAL_UUID4
+    if TERM["real"] is not None:
+        from odml import terminology
+        terminology.load, terminology.deferred_load = TERM["real"]
 
 
 # --------------------------------------------------------------------------
